@@ -17,7 +17,9 @@ PROP = "C36"
 SCRATCH_ROOT = "/dev/shm" if os.path.isdir("/dev/shm") else "/var/tmp"
 
 SCRIPTS = [
-    (["session"], 50),
+    (["session"], 40),
+    (["default"], 10),
+    (["default", "event"], 4),
     (["session", "event"], 12),
     (["session", "sysevent", "save"], 10),
     (["session", "session"], 14),
@@ -65,13 +67,21 @@ def child_main(script, report):
     sessions = []
     for opidx, op in enumerate(script["ops"]):
         try:
-            if op == "session":
-                s = S.Session(db_url=script["db_url"])
+            if op in ("session", "default"):
+                if op == "session":
+                    s = S.Session(db_url=script["db_url"])
+                else:
+                    # the path of misc.get_default_session / AnalyzeDex: Session() on ./androguard.db of the cwd
+                    import androguard.misc as M
+                    from androguard.core import androconf
+                    os.chdir(script["cwd"])
+                    androconf.CONF["SESSION"] = None
+                    s = M.get_default_session()
                 sessions.append(s)
                 sid = s.session_id
                 if not isinstance(sid, (int, str, bool, type(None))):
                     sid = repr(sid)
-                report(("ret", opidx, op, sid, type(s.session_id).__name__))
+                report(("ret", opidx, "session", sid, type(s.session_id).__name__))
             elif op == "event":
                 sessions[-1].insert_event("call", "callee", "params", "ret")
                 report(("ret", opidx, op, None, ""))
@@ -87,7 +97,7 @@ def child_main(script, report):
             raise
         except Exception as e:  # the code under test raised: report, then the script dies like an uncaught exception
             first = (str(e).split("\n")[0])[:200]
-            report(("exc", opidx, op, type(e).__name__, first, procsim._LAST_KIND[0]))
+            report(("exc", opidx, "session" if op == "default" else op, type(e).__name__, first, procsim._LAST_KIND[0]))
             return
 
 
@@ -237,14 +247,14 @@ def run_case(case: dict, recorded=None, strict=False) -> dict:
             with open(path, "wb") as f:
                 f.write(data)
         url = "sqlite:///" + path
-        scripts = [{"ops": ops, "db_url": url} for ops in case["scripts"]]
+        scripts = [{"ops": ops, "db_url": url, "cwd": d} for ops in case["scripts"]]
         v = Verdicts(case, pre_ids)
         res = procsim.simulate(
             scripts, child_main, child_teardown, case["cfg"],
             sched_rng=None if recorded is not None else core.rng(seed, "sched"),
             fault_rng=None if (recorded is not None or case["cfg"].get("class") != "faults") else core.rng(seed, "faults"),
             recorded=recorded, strict=strict, on_message=v.on_message,
-            restart_script={"ops": ["session"], "db_url": url})
+            restart_script={"ops": ["session"], "db_url": url, "cwd": d})
         # ---- I2: read the database with a fresh un-instrumented connection ------------
         rows = []
         if os.path.exists(path):
@@ -435,7 +445,7 @@ def replay(path: str) -> int:
 # batch
 # --------------------------------------------------------------------------
 
-TIERS = {"quick": dict(runs=2500, wall=420), "thorough": dict(runs=24000, wall=5400)}
+TIERS = {"quick": dict(runs=1500, wall=900), "thorough": dict(runs=24000, wall=5400)}
 
 
 def run(tier: str) -> int:
